@@ -284,7 +284,25 @@ fn explore(plan: &Plan, kf: &[KnownFinding], prop: &str) -> Stats {
         let u = &plan.universes[ui];
         let mut sentences = all_strings(&u.alphabet, if u.extra_sentences.is_empty() { plan.max_len } else { plan.max_len.min(3) });
         sentences.extend(u.extra_sentences.iter().cloned());
+        // neighbour instances in the same thread: a twin with its categories declared in another
+        // order and the next dictionary of the family (different lexicon / char.def), one built and
+        // used BEFORE this dictionary is built, one AFTER it is built and before it is used.
+        // A dictionary must behave the same whatever else lives in its thread.
+        let neighbours: Vec<Universe> = [u.swapped_categories(), Some(plan.universes[(ui + 1) % plan.universes.len()].clone())].into_iter().flatten().collect();
+        let exercise = |v: &Universe, st: &mut Stats| {
+            if let Ok((d, _)) = v.build() {
+                if let Ok(t) = make_tokenizer(d, v.opts[0]) {
+                    for s in sentences.iter().skip(1).step_by(sentences.len() / 3 + 1).take(3) {
+                        let _ = run_fresh(&t, s, false);
+                    }
+                    st.count("neighbour_instances_exercised_in_the_same_thread");
+                }
+            }
+        };
         for &opts in &u.opts {
+            if let Some(v) = neighbours.first() {
+                exercise(v, st);
+            }
             let (dict, rd) = match u.build() {
                 Ok(x) => x,
                 Err(e) => {
@@ -292,6 +310,9 @@ fn explore(plan: &Plan, kf: &[KnownFinding], prop: &str) -> Stats {
                     std::process::exit(2);
                 }
             };
+            if let Some(v) = neighbours.last() {
+                exercise(v, st);
+            }
             let t = match make_tokenizer(dict, opts) {
                 Ok(t) => t,
                 Err(e) => {
@@ -655,7 +676,7 @@ pub fn run(which: Which, tier: Tier) -> i32 {
         }
     }
     rep.rule = format!(
-        "state = (dictionary of a finite family, option setting, sentence); successor = append one character of the universe's alphabet; every sentence of length <= {max_len} is tokenized by the real code on a fresh worker and compared with the reference; for C01/C02 every sentence is also tokenized on one reused worker in enumeration order and on another in reverse order, where it must give the same tokens; for C01 every second dictionary is also configured through a detour of option calls (opposite values first / other order and twice / on-off-final) and must tokenize identically; distinct = distinct (dictionary, options, token sequence) outcomes"
+        "state = (dictionary of a finite family, option setting, sentence); successor = append one character of the universe's alphabet; every sentence of length <= {max_len} is tokenized by the real code on a fresh worker and compared with the reference; for C01/C02 every sentence is also tokenized on one reused worker in enumeration order and on another in reverse order, where it must give the same tokens; for C01 every second dictionary is also configured through a detour of option calls (opposite values first / other order and twice / on-off-final) and must tokenize identically; around every dictionary two neighbour instances (a twin with its categories declared in another order, and the next dictionary of the family) are built and used in the same thread, one before it is built and one after; distinct = distinct (dictionary, options, token sequence) outcomes"
     );
     rep.bounds = json!({"max_sentence_len": max_len, "universes": universes.len(), "option_settings_per_universe": universes.iter().map(|u| u.opts.len()).max()});
     rep.assumptions = vec![
